@@ -32,7 +32,7 @@ S = M.struct("S")
 F2, F3, I2 = M.vec("float", 2), M.vec("float", 3), M.vec("int", 2)
 M3 = M.mat("float", 3, 3)
 GLOBALS = [(INT, "gi"), (FLOAT, "gf"), (F3, "gv"), (I2, "gw"), (M.arr(INT, (3,)), "ga"), (S, "gs"),
-           (M.arr(INT, (2, 3)), "g2"), (M3, "gm"), (M.arr(S, (2,)), "gsa")]
+           (M.arr(INT, (2, 3)), "g2"), (M3, "gm"), (M.arr(S, (2,)), "gsa"), (M.vec("float", 2), "gp")]
 
 
 def lit(v):
@@ -63,6 +63,17 @@ def fld(base, name):
 gi, gf, gv, gw = V("gi", INT), V("gf", FLOAT), V("gv", F3), V("gw", I2)
 ga, gs, g2, gm, gsa = V("ga", M.arr(INT, (3,))), V("gs", S), V("g2", M.arr(INT, (2, 3))), V("gm", M3), V("gsa", M.arr(S, (2,)))
 P, Q = V("p", INT), V("q", FLOAT)
+gp = V("gp", F2)
+
+
+def fib_function():
+    """non-exported tree recursion: a value stays live across the second recursive call"""
+    n = V("n", INT)
+    body = [M.If(M.Bin("<", n, lit(2)), M.Block([M.Return(n)])),
+            M.Decl(INT, "a", M.Call("fib", [M.Bin("-", n, lit(1))], INT, 0)),
+            M.Decl(INT, "b", M.Call("fib", [M.Bin("-", n, lit(2))], INT, 0)),
+            M.Return(M.Bin("+", M.Bin("+", V("a", INT), V("b", INT)), n))]
+    return M.Func("fib", [(INT, "n")], INT, M.Block(body), False)
 
 
 def pmod(n):
@@ -144,6 +155,12 @@ def actions():
         return [M.For(M.Decl(INT, i, lit(0)), M.Bin("<", V(i, INT), lit(2)), M.Affix("++", V(i, INT), True),
                       M.Block([M.Decl(INT, t.name), asg(t, "+=", M.Bin("+", P, V(i, INT))), asg(gi, "+=", t)]))]
     A["local-scalar-in-loop"] = local_scalar_loop
+    A["tree-recursion"] = lambda k: [asg(gi, "+=", M.Call("fib", [M.Bin("%", P, lit(6))], INT, 0))]
+    # constructors whose FIRST operand is a stored vector (global, struct field, matrix row)
+    A["construct-from-stored-vector"] = lambda k: [
+        asg(gv, "=", M.Bin("+", gv, M.Construct(F3, [gp, Q]))),
+        asg(gv, "=", M.Bin("-", gv, M.Construct(F3, [fld(gs, "v"), flit(1)]))),
+        asg(M.Member(gv, "xy", F2), "=", M.Bin("+", gp, fld(gs, "v")))]
 
     def local_aggregate_loop(k):
         i = "j%d" % k
@@ -180,7 +197,7 @@ def programs(draw):
         rty = {"int": INT, "float": FLOAT, "vec": F3, "int2": INT}[rk]
         stmts.append(M.Return(copy.deepcopy(rf())))
         funcs.append(M.Func("f%d" % fi, [(INT, "p"), (FLOAT, "q")], rty, M.Block(stmts), True))
-    return M.Program([("S", S_FIELDS)], list(GLOBALS), funcs)
+    return M.Program([("S", S_FIELDS)], list(GLOBALS), [fib_function()] + funcs)
 
 
 def value_strategy(ty, prog):
@@ -340,7 +357,7 @@ def make_machine(ctx):
         @rule(data=st.data())
         def invoke(self, data):
             vi = data.draw(st.integers(0, len(self.live.vms) - 1))
-            f = data.draw(st.sampled_from(self.hist.prog.funcs))
+            f = data.draw(st.sampled_from([f for f in self.hist.prog.funcs if f.exported]))
             args = {"p": data.draw(st.integers(0, 5)), "q": data.draw(st.integers(-8, 8)) / 4.0}
             self._do(("invoke", vi, f.name, args))
 
